@@ -725,10 +725,41 @@ Proof.
   { unfold b, a, sep. simpl. rewrite !app_length. simpl. lia. }
   split; [|split].
   - rewrite Es, H. unfold the_entity. rewrite <- Eb. fold n. reflexivity.
-  - unfold s, a. rewrite <- (Nat.add_0_l (length (c0 :: ktl))) at 2.
-    exact (slice_app0 [] ((c0 :: ktl) ++ sep ++ raw ++ [10%N]) (length (c0 :: ktl)) |> fun _ => ltac:(idtac)) || idtac.
-    change (slice ((c0 :: ktl) ++ sep ++ raw ++ [10%N]) 0 (length (c0 :: ktl)))
-      with (slice ([] ++ (c0 :: ktl) ++ sep ++ raw ++ [10%N]) (length (@nil N)) (length (@nil N) + length (c0 :: ktl))).
-    apply slice_mid.
+  - exact (slice_mid [] (c0 :: ktl) (sep ++ raw ++ [10%N])).
   - unfold s, b, n. rewrite app_assoc. unfold b, a. rewrite <- app_length. apply slice_mid.
+Qed.
+
+(* ---- the same with the values: key, raw_val, val of the one entity --------------------------------- *)
+From CL Require Import Model.Unescape.
+
+Theorem record_view : forall (html : str -> str) (key b1 : str) (sc : N) (b2 : str) (ts : list ptok),
+  legal_key key = true -> legal_sep b1 sc b2 = true ->
+  toks_ok ts = true -> legal_raw1 (render_toks ts) = true ->
+  let raw := render_toks ts in
+  let sep := b1 ++ sc :: b2 in
+  views html VProps (key ++ sep ++ raw ++ [10%N]) =
+  Ok [mkview KEntity (key ++ sep ++ raw) (KStr key) (Some raw) (Ok (Some (meaning_toks ts))) None;
+      mkview KWhitespace [10%N] (KStr [10%N]) (Some [10%N]) (Ok (Some [10%N])) None].
+Proof.
+  intros html key b1 sc b2 ts Hk Hs Ht Hr raw sep.
+  destruct (roundtrip_one key b1 sc b2 raw Hk Hs Hr) as [Hw [Hkey Hraw]].
+  fold sep in Hw, Hkey, Hraw.
+  set (s := key ++ sep ++ raw ++ [10%N]) in *.
+  set (a := length key) in *. set (b := a + length sep) in *. set (n := b + length raw) in *.
+  assert (Hn : n = length (key ++ sep ++ raw)).
+  { unfold n, b, a. rewrite !app_length. lia. }
+  assert (Es : s = (key ++ sep ++ raw) ++ [10%N]).
+  { unfold s. rewrite <- !app_assoc. reflexivity. }
+  assert (Hall : slice s 0 n = key ++ sep ++ raw).
+  { rewrite Es, Hn. rewrite <- (app_nil_r [10%N]).
+    exact (slice_mid [] (key ++ sep ++ raw) ([10%N] ++ [])). }
+  assert (Hnl : slice s n (S n) = [10%N]).
+  { rewrite Es, Hn. replace (S (length (key ++ sep ++ raw))) with (length (key ++ sep ++ raw) + 1) by lia.
+    rewrite slice_app0. reflexivity. }
+  unfold views, walk_of. rewrite Hw. cbn [map].
+  unfold entry_view at 1. cbn [e_kind]. unfold entity_view, all_text, span_start, text_or_empty, span_text.
+  cbn [e_pre e_span e_key e_val fst snd]. rewrite Hall, Hkey, Hraw.
+  unfold raw. rewrite (unescape_properties ts Ht).
+  unfold entry_view, mk_white, all_text, span_start, text_or_empty, span_text.
+  cbn [e_kind e_pre e_span e_key e_val fst snd]. rewrite Hnl. reflexivity.
 Qed.
